@@ -73,6 +73,21 @@ func init() {
 			for i := 0; i < n; i++ {
 				name := fmt.Sprintf("file%c", 'a'+i)
 				f := c20File{path: core.Pick(c.R, dirs) + "/" + name + ".json", id: "urn:" + name, root: "Root" + strings.ToUpper(name[4:])}
+				// the identifier as the schema spells it — current or legacy keyword, with or without an (empty) fragment or a
+				// trailing slash — is what the mapping flags name, verbatim
+				idKw := "$id"
+				switch (si + i) % 6 {
+				case 1:
+					idKw = "id"
+				case 2:
+					f.id = "https://example.com/schemas/" + name + "#"
+				case 3:
+					f.id, idKw = "https://example.com/schemas/"+name+"#", "id"
+				case 4:
+					f.id = "https://example.com/schemas/" + name + "/"
+				case 5:
+					f.id, idKw = "https://example.com/"+name+".json", "id"
+				}
 				if sameStem {
 					f.path = stemDir + "/thing" + []string{".json", ".yaml", ".yml"}[i]
 				}
@@ -88,7 +103,7 @@ func init() {
 					f.out = "out/p" + name[4:] + "/" + name + ".go"
 				}
 				props := M{"own" + name[4:]: M{"type": "string", "minLength": 1}, "num": M{"type": "integer", "minimum": i}}
-				f.schema = M{"$id": f.id, "type": "object", "properties": props, "required": []any{"own" + name[4:]},
+				f.schema = M{idKw: f.id, "type": "object", "properties": props, "required": []any{"own" + name[4:]},
 					"$defs": M{"Def" + strings.ToUpper(name[4:]): M{"type": "object", "properties": M{"d" + name[4:]: M{"type": "boolean"}}}}}
 				files = append(files, f)
 			}
@@ -182,7 +197,7 @@ func init() {
 				}
 				// every definition Def<X> of every file is declared exactly once, in the file mapped to its schema
 				for _, f := range files {
-					dn := "Def" + strings.ToUpper(f.id[len(f.id)-1:])
+					dn := "Def" + strings.TrimPrefix(f.root, "Root")
 					declared, where := 0, ""
 					for name, data := range outs {
 						k := len(regexp.MustCompile(`(?m)^type `+dn+` `).FindAllString(data, -1))
